@@ -142,7 +142,7 @@ func main() {
 			writeJSON(*out, rep)
 		}
 	}
-	// watchdog: a run or a shrink attempt that makes no progress for 45 s (a task killed after a violation may have left
+	// watchdog: a run or a shrink attempt that makes no progress for 2 minutes (a task killed after a violation may have left
 	// a lock of the system under test held for ever) ends the process with whatever was found so far
 	go func() {
 		// staleness is counted in watchdog ticks, not read off the wall clock: a suspended VM or a stopped process makes
@@ -156,7 +156,7 @@ func main() {
 				continue
 			}
 			stale++
-			limit := 22 // ~45 s
+			limit := 60 // ~2 min: the slowest legitimate runs (thousands of bytes of path through nested infix catch-alls, scanned once per method for Allow) take seconds
 			if pending.Load() {
 				limit = 4 // ~8 s
 			}
@@ -165,7 +165,7 @@ func main() {
 					// the unshrunk violation was flushed to the report file before shrinking started
 					os.Exit(0)
 				}
-				rep.Trouble = "watchdog: no progress for 45 s"
+				rep.Trouble = "watchdog: no progress for 2 minutes"
 				flush()
 				os.Exit(2)
 			}
